@@ -82,6 +82,11 @@ def insertSorted {α : Type} (key : α → Nat) (a : α) : List α → List α
 def sortBy {α : Type} (key : α → Nat) (l : List α) : List α :=
   l.foldr (insertSorted key) []
 
+/-- Number of distinct naturals in a list (object identities). -/
+def countDistinct : List Nat → Nat
+  | [] => 0
+  | a :: rest => if rest.contains a then countDistinct rest else countDistinct rest + 1
+
 /-- Saturating subtraction on `u64` counters is truncated subtraction on `Nat`. -/
 abbrev satSub (a b : Nat) : Nat := a - b
 
